@@ -349,14 +349,14 @@ def render(lines: list, rnd) -> tuple[str, dict]:
 		indent = unit * depth
 		sub, _, _, _ = emit_inner_line(items, indent, rnd, stats)
 		line = indent + sub
-		line += rnd.choice(['', '', ' ', '  # trailing', '\t'])
+		line += rnd.choice(['', '', ' ', '  # trailing', '\t', '  #', ' #', '#x', '# '])  # also comments with an empty / one-character body
 		out.append(line + '\n')
 		if i + 1 < len(lines):
 			r = rnd.random()
 			if r < 0.15:
 				out.append(rnd.choice(['\n', '   \n', '\t\n']))
 			elif r < 0.35:
-				out.append(unit * rnd.randint(0, 6) + '# between\n')
+				out.append(unit * rnd.randint(0, 6) + rnd.choice(['# between', '# between', '#', '##', '# #']) + '\n')
 				stats['comment_between'] = True
 	text = ''.join(out)
 	tail = rnd.randint(0, 3)
@@ -377,9 +377,9 @@ def emit_inner_line(items: list, indent: str, rnd, stats: dict) -> tuple:
 		sub = ''
 		for x in it[2]:
 			if isinstance(x, tuple) and x[0] == 'NL':
-				sub += rnd.choice(['', ' ', '  # in']) + '\n' + rnd.choice(['', ' ', '  ', '\t', indent, indent + '  '])
+				sub += rnd.choice(['', ' ', '  # in', ' #']) + '\n' + rnd.choice(['', ' ', '  ', '\t', indent, indent + '  '])
 				if rnd.random() < 0.2:
-					sub += '# own line\n' + rnd.choice(['', '  '])
+					sub += rnd.choice(['# own line', '#']) + '\n' + rnd.choice(['', '  '])
 				stats['multiline_group'] = True
 				sub_state['after_nl'], sub_state['force'] = True, False
 				continue
